@@ -149,6 +149,8 @@ def generic_resolver(mf, crate_prefixes):
             if nargs is not None and f.nargs != nargs:
                 continue
             if self_ty is not None:
+                if "impl at" not in n:
+                    continue          # `Type::method` never names a free function of the same name
                 if f.nargs == 0:
                     if _base_type(f.ret_ty) == self_ty and "impl at" in n and not n.endswith("#2"):
                         out.append(n)
@@ -163,7 +165,8 @@ def generic_resolver(mf, crate_prefixes):
                     continue
             out.append(n)
         if len(out) > 1 and by_ref is not None:
-            out = [n for n in out if mf.func(n).locals.get(1, "").strip().startswith("&") == by_ref]
+            narrowed = [n for n in out if mf.func(n).locals.get(1, "").strip().startswith("&") == by_ref]
+            out = narrowed or out
         if len(out) == 1:
             return out[0]
         if len(out) == 2 and method == "clone" and self_ty is not None:
@@ -171,7 +174,9 @@ def generic_resolver(mf, crate_prefixes):
             # `Type::clone` names the inherent one (listed later in the impl order of the dump)
             sigs = {(mf.func(n).locals.get(1, "").strip(), mf.func(n).ret_ty.strip()) for n in out}
             if len(sigs) == 1:
-                return sorted(out, key=lambda n: mf.items[n][0])[-1]
+                # the trait form `<T as Clone>::clone` names the derived impl (first in the dump), `T::clone` the inherent one
+                ordered = sorted(out, key=lambda n: mf.items[n][0])
+                return ordered[0] if c.startswith("<") else ordered[-1]
         if not out and self_ty is not None:
             # associated function without `self` whose signature does not mention the type (e.g. `Type::is_xyz(&str) -> bool`):
             # accept when the method name is unique in the crate
